@@ -4,8 +4,8 @@
    leg_ok, parts_ok, ascending, accrual_verdict), Spec/DateSpec.v (tiles).
    Model: Model/Ledger.v.  [txn_create_fixed] is transaction.Create with the repair of
    findings/C10-equity-dropped.patch ([!p.Account.IsIE()] instead of [p.Account.IsAL()] in
-   transaction.expand); [txn_create] is the pinned code, of which C10_equity_refuted shows that
-   it violates the property.  Theorems stated with [txn_create_gen rebook] hold of both.    *)
+   transaction.expand); [txn_create_gen rebook_pinned] is the pinned code (what [txn_create],
+   used by Cli.v, currently is), of which C10_equity_refuted shows that it violates the property.  Theorems stated with [txn_create_gen rebook] hold of both.    *)
 From Coq Require Import ZArith QArith List Bool Permutation.
 From Knut Require Import Model.Str Model.Dec Model.Date Model.Account Model.Ledger.
 From Knut Require Import Spec.DateSpec Spec.AccrualSpec.
@@ -166,7 +166,7 @@ Print Assumptions C10_model_meets_spec.
 
 (* A posting on an equity account is neither re-booked nor split by the pinned expansion. *)
 Theorem C10_pinned_drops_equity : forall t ac p,
-  is_AL (p_acc p) = false -> is_IE (p_acc p) = false -> expand_posting t ac p = MOk [].
+  is_AL (p_acc p) = false -> is_IE (p_acc p) = false -> expand_posting_gen rebook_pinned t ac p = MOk [].
 Proof. exact expand_posting_pinned_dropped. Qed.
 Print Assumptions C10_pinned_drops_equity.
 
@@ -174,7 +174,7 @@ Print Assumptions C10_pinned_drops_equity.
    pinned transaction.Create: the equity account loses its booking of -300 CHF and the accrual
    account ends at -300 CHF. *)
 Theorem C10_equity_refuted : exists s ac ts a c,
-  txn_create s = MOk ts /\ st_accrual s = Some ac /\
+  txn_create_gen rebook_pinned s = MOk ts /\ st_accrual s = Some ac /\
   ac_start ac <> 0 /\ ac_start ac <= ac_end ac /\
   a <> ac_account ac /\ ~ in_bookings (ac_account ac) (st_bookings s) /\
   ~ (booked_txns a c ts == booked_src a c (st_bookings s))%Q /\
@@ -204,7 +204,7 @@ Proof. vm_compute. reflexivity. Qed.
 
 (* ... and satisfies the executable statement, while the pinned expansion fails clause 2 *)
 Example C10_example_verdict :
-  match txn_create_fixed witness, txn_create witness,
+  match txn_create_fixed witness, txn_create_gen rebook_pinned witness,
         new_partition (mkPeriod (ac_start witness_accrual) (ac_end witness_accrual)) Monthly 0 with
   | MOk ts, MOk ts', POk part =>
     accrual_verdict witness witness_accrual (end_dates part) ts = 0 /\
@@ -227,7 +227,7 @@ Proof. vm_compute. reflexivity. Qed.
 
 (* the empty window of F8, concretely *)
 Example C10_example_empty_window :
-  txn_create (mkStxn (of_civil 2020 1 15) []
+  txn_create_gen rebook_pinned (mkStxn (of_civil 2020 1 15) []
           [mkBooking acc_assets_receivables acc_expenses_rent (mkDec 100 0) chf] None
           (Some (mkAccrual Monthly (of_civil 2020 3 31) (of_civil 2020 1 1) acc_equity_opening)))
   = MPanic e_divzero.
